@@ -584,7 +584,7 @@ Definition ex2r_nets : list (list hpin) :=
    [{| pc := 3%nat; pxo := 0; pyo := 0 |}; {| pc := 5%nat; pxo := 0; pyo := 0 |}]].
 Definition ex2r_window : list nat := [2%nat; 0%nat; 3%nat; 1%nat].
 
-Lemma ex2r_std : std_design ex2r 2.
+Example ex2r_std : std_design ex2r 2.
 Proof.
   split; [lia|]. split; [intros r [<-|[<-|[]]]; reflexivity|].
   split; [apply CircuitProofs.pairwise_disjointb_spec; vm_compute; reflexivity|].
